@@ -11,6 +11,21 @@ import re
 
 
 PROPS = {
+    "C07": {
+        "coq_targets": ["theories/Lex/RowColProofs.vo", "theories/PC/Proofs.vo"],
+        "harness": ["c07"],
+        "disagreement_is_violation": True,
+        "axioms": [],
+        "trusted_base": COMMON_TB + [
+            "Lex/RowCol.v (see C11) and PC/Model.v (see C20) as models of the input layer and of the combinator library",
+            "harness/src/c07.rs: the input generators (random bytes, token soups, statement shapes, mutations, prefixes, deep nesting), the panic guard, the wall-clock measurement, the child process for deep nesting",
+            "NOT modelled: the grammar (rusty_parser, ~13 kLoC) and the checker (rusty_linter); absence of panics, termination and the time bound are searched, not proved",
+        ],
+        "assumptions": [
+            "nesting depth up to 300 levels (the property allows 'a few hundred')",
+            "time bound used by the search: 5 s per input (observed maximum is recorded in the evidence)",
+        ],
+    },
     "C11": {
         "coq_targets": ["theories/Lex/RowColProofs.vo"],
         "harness": ["c11"],
